@@ -564,6 +564,29 @@ def noise_hook_rule(ctx, rid):
         raise AnalysisError(f'{rid}: only {n_parts} part-circuit iterations found in SimulatorBase')
 
 
+def own_callees(repo, ci, fn, depth=2):
+    """Private methods of the same class (and module-level private functions) that `fn` calls, transitively up to `depth`."""
+    out, seen, todo = [], {fn}, [(fn, 0)]
+    while todo:
+        f, d = todo.pop(0)
+        if d >= depth:
+            continue
+        for c in ast.walk(f):
+            if not isinstance(c, ast.Call):
+                continue
+            tgt = None
+            if isinstance(c.func, ast.Attribute) and isinstance(c.func.value, ast.Name) and c.func.value.id in ('self', 'cls'):
+                r = repo.find_method(ci, c.func.attr)
+                tgt = r[1] if r else None
+            elif isinstance(c.func, ast.Name) and isinstance(ci.mod.defs.get(c.func.id), ast.FunctionDef):
+                tgt = ci.mod.defs[c.func.id]
+            if tgt is not None and tgt not in seen:
+                seen.add(tgt)
+                out.append(tgt)
+                todo.append((tgt, d + 1))
+    return out
+
+
 def confusion_before_inversion_rule(ctx, rid):
     """Both recording paths apply the confusion map to the raw outcome and the invert mask afterwards (the order MeasurementGate documents:
     'the invert_mask ... is applied after confusion')."""
@@ -574,7 +597,10 @@ def confusion_before_inversion_rule(ctx, rid):
     sites = [('cirq.sim.simulation_state.SimulationState', 'measure'), ('cirq.sim.simulator.StepResult', 'sample_measurement_ops')]
     for cq, mn in sites:
         ci = repo.cls(cq)
-        fn = repo.method(cq, mn)
+        fn0 = repo.method(cq, mn)
+        # the steps may live in a private helper the method hands each operation to (an extracted loop body): look there too
+        cands = [fn0] + own_callees(repo, ci, fn0)
+        fn = next((f_ for f_ in cands if any(isinstance(x, ast.Call) and call_name(x) in ('_confuse_result', '_confuse_results') for x in ast.walk(f_))), fn0)
         # names holding the invert mask: the parameter, or locals bound from *.invert_mask / full_invert_mask()
         dep = name_deps(fn, {a.arg: {a.arg} for a in fn.args.args if 'invert' in a.arg},
                         source_of=lambda x: {'invert_mask'} if (isinstance(x, ast.Attribute) and 'invert_mask' in x.attr) or
